@@ -43,7 +43,7 @@ var modeName = map[byte]string{FwdReturn: "return", FwdRevert: "revert", FwdInva
 func (w *world) genCall(r *Rng) callSpec {
 	mode := []byte{FwdReturn, FwdReturn, FwdRevert, FwdInvalid}[r.Intn(4)]
 	amt := Bi(int64(1000 + r.Intn(100000)))
-	switch r.Intn(24) {
+	switch r.Intn(26) {
 	case 0:
 		return callSpec{name: "counter", to: p(w.counter), predictable: true}
 	case 1:
@@ -71,16 +71,8 @@ func (w *world) genCall(r *Rng) callSpec {
 		return callSpec{name: "outer63/64>sstore-worker", to: p(w.outer), data: word(r.U64() >> 8), predictable: true, gasDep: true}
 	case 10:
 		return callSpec{name: "sstore-worker", to: p(w.worker), data: word(r.U64() >> 8), predictable: true}
-	case 11:
-		v := uint64(0)
-		if r.Chance(40) {
-			v = 1 + uint64(r.Intn(5))
-		}
-		n := "refunder/set"
-		if v == 0 {
-			n = "refunder/clear"
-		}
-		return callSpec{name: n, to: p(w.refunder), data: word(v), predictable: true, gasDep: true}
+	case 11, 24, 25:
+		return w.refunderCall(r)
 	case 12:
 		return callSpec{name: "selfdestruct", to: p(w.sd), predictable: true}
 	case 13:
@@ -100,6 +92,9 @@ func (w *world) genCall(r *Rng) callSpec {
 		}
 		return callSpec{name: "value-transfer", to: p(w.nobody), value: amt}
 	case 19:
+		if r.Chance(40) {
+			return callSpec{name: "counter+value", to: p(w.counter), value: amt}
+		}
 		return callSpec{name: "ctx-reader", to: p(w.ctxr)}
 	case 20:
 		return callSpec{name: "caller-balance", to: p(w.balr)}
@@ -109,6 +104,39 @@ func (w *world) genCall(r *Rng) callSpec {
 		return callSpec{name: "cpc/bad-selector", to: p(w.erc20), data: []byte{0xde, 0xad, 0xbe, 0xef, byte(r.Intn(256))}, predictable: true}
 	default:
 		return callSpec{name: "fwd>nobody/" + modeName[mode], to: p(w.fwd), data: FwdInput(mode, w.nobody, []byte{byte(r.Intn(256))}), predictable: true}
+	}
+}
+
+// refunderCall clears the refunder's slot when it is set (earning a refund: gas used < gas needed) and sets it when
+// it is clear, most of the time.
+func (w *world) refunderCall(r *Rng) callSpec {
+	set := w.c.App.EvmKeeper.GetState(w.c.QueryCtx(), w.refunder, common.BigToHash(Bi(7))) != (common.Hash{})
+	v := uint64(0)
+	if set == r.Chance(15) {
+		v = 1 + uint64(r.Intn(5))
+	}
+	n := "refunder/set"
+	if v == 0 {
+		n = "refunder/clear"
+	}
+	return callSpec{name: n, to: p(w.refunder), data: word(v), predictable: true, gasDep: true}
+}
+
+// sharedStateCall: calls whose result depends on what the earlier transactions of the same block did.
+func (w *world) sharedStateCall(r *Rng, i int) callSpec {
+	switch r.Intn(5) {
+	case 0:
+		return callSpec{name: "counter", to: p(w.counter), predictable: true}
+	case 1:
+		return callSpec{name: "fwd>counter/return", to: p(w.fwd), data: FwdInput(FwdReturn, w.counter, nil), predictable: true}
+	case 2:
+		// the same storage slots as the other workers of this block: fresh for the first, already set for the rest
+		return callSpec{name: "sstore-worker/shared-slots", to: p(w.worker), data: word(uint64(w.c.Height) << 20), predictable: true}
+	case 3:
+		v := uint64(i % 2)
+		return callSpec{name: "refunder/alternating", to: p(w.refunder), data: word(v), predictable: true, gasDep: true}
+	default:
+		return callSpec{name: "creator", to: p(w.creator), predictable: true}
 	}
 }
 
